@@ -173,6 +173,16 @@ Definition fileStat_flags (has_stat_t has_uidgid_iface : bool) (n_extended : nat
   let f := if has_ext_iface && negb (Nat.eqb n_extended 0) then N.lor f fl_ext else f in
   f.
 
+(* attrs.go fileStatFromInfo: whose uid/gid goes into the attribute block. fileStatFromInfoOs fills them in from a
+   *syscall.Stat_t behind Sys(); an entry that implements FileInfoUidGid overrides them with Uid()/Gid(). *)
+Definition fileStat_owner (has_stat_t has_uidgid_iface : bool) (stat_ids iface_ids : N * N) : N * N :=
+  if has_uidgid_iface then iface_ids else if has_stat_t then stat_ids else (0, 0).
+
+(* ls_formatting.go runLs, for entries whose Sys() is nil or a *syscall.Stat_t (the default branch of its type switch): the
+   owner and group columns of the long name *)
+Definition ls_owner (has_stat_t has_uidgid_iface : bool) (stat_ids iface_ids : N * N) : N * N :=
+  if has_uidgid_iface then iface_ids else if has_stat_t then stat_ids else (0, 0).
+
 (* ---- server.go: SETSTAT / FSETSTAT application: which os operations are issued, in which order ---- *)
 Inductive setop := OpTruncate (size : N) | OpChmod (osmode : N) | OpChown (uid gid : N) | OpChtimes (atime mtime : N).
 
